@@ -40,10 +40,10 @@ ASSUMPTIONS = [
     "crash = process death with completed syscalls durable; loss of un-synced data on power failure is not modelled",
 ]
 BOUNDS = {
-    "quick": "64 directory shapes x 7 distfile sets x {thick,thin} x 2 checksum sets x 2 content variants, 4 orders each; "
-    "all permutations (root listing x files/ listing x fetchables) for the 64 shapes with 2 distfiles, thick; "
-    "crash sweep: all ordered pairs of 10 directory states x {thick, thin}",
-    "thorough": "same product; all permutations for 64 shapes x {0,2 distfiles} x {thick,thin} x 2 content variants; crash sweep over 16 states",
+    "quick": "64 directory shapes x 7 distfile sets x {thick,thin} x 2 checksum sets x 2 content variants = 3584 states, 4 orders each (~14k updates, "
+    "each followed by an up-to-date re-run); all permutations (root listing x files/ listing x fetchables, up to 1440 per directory, ~6.9k updates) for "
+    "the 64 shapes with 2 distfiles, thick; crash sweep: all ordered pairs of 10 directory states incl. 'no Manifest yet' x {thick, thin} = 150 scenarios",
+    "thorough": "same product; all permutations for 64 shapes x {0,2 distfiles} x {thick,thin} x 2 content variants (~21k updates); crash sweep over 16 states = 416 scenarios",
 }
 
 # ---------------------------------------------------------------------------------------------
@@ -277,11 +277,16 @@ def check_state(scr, st, full, only=None):
     exp = model(st)
     mode = "thin" if st["thin"] else "thick"
     osets = order_sets(st, full)
+    scr.reset()
+    build_dir(scr.data, st)
     for idx, (orders, forder) in enumerate(osets):
         if only is not None and idx not in (0, only):
             continue
-        scr.reset()
-        build_dir(scr.data, st)
+        for f in ("Manifest", ".update.Manifest"):  # same directory, no Manifest yet
+            try:
+                os.unlink(os.path.join(pkgdir(scr.data), f))
+            except FileNotFoundError:
+                pass
         n += 1
         tag = f"{mode} {st['files']} dist={st['dist']} chfs={CHFS[st['chfs']]} variant={st['variant']} listing={orders} fetchables={forder}"
         try:
@@ -496,6 +501,8 @@ def work(task):
             samples = [{"sweep_old": old, "thin": thin}]
     finally:
         shutil.rmtree(base, ignore_errors=True)
+    # the runner keeps at most 40 candidates per task: put the ones no classifier explains first
+    viol.sort(key=lambda v: any(f(v) for f in CLASSIFIERS.values()))
     return {"evals": evals, "classes": classes, "viol": viol, "samples": samples, "counters": counters}
 
 
